@@ -347,7 +347,21 @@ def f49():
     return True if np.allclose(np.array(D(0.1), dtype=float), num, atol=1e-5) else D(0.1)
 
 
-for name, fn in (("F36", f36), ("F37", f37), ("F38", f38), ("F39", f39), ("F40", f40), ("F41", f41), ("F42", f42), ("F43", f43), ("F44", f44), ("F45", f45), ("F46", f46), ("F47", f47), ("F48", f48), ("F49", f49)):
+def f50():
+    """C15: knot_clean with a non-number among the nodes raised after removing the knots before it (fixed in /repo)"""
+    for _ in range(4):
+        c = Curve([0, 0, F(1, 4), F(1, 2), 1, 1], [F(0), F(1), F(2), F(3)])
+        before = (tuple(c.knotvector), tuple(c.ctrlpoints))
+        try:
+            c.knot_clean([F(1, 4), F(1, 2), None])
+            return "no error"
+        except TypeError:
+            if (tuple(c.knotvector), tuple(c.ctrlpoints)) != before:
+                return "raised and changed the curve"
+    return True
+
+
+for name, fn in (("F36", f36), ("F37", f37), ("F38", f38), ("F39", f39), ("F40", f40), ("F41", f41), ("F42", f42), ("F43", f43), ("F44", f44), ("F45", f45), ("F46", f46), ("F47", f47), ("F48", f48), ("F49", f49), ("F50", f50)):
     if len(sys.argv) > 1 and name not in sys.argv[1:]:
         continue
     t(name, fn)
